@@ -1217,6 +1217,62 @@ def split_name_tuple_assignments(repo) -> int:
     return n
 
 
+def fold_constant_tests(repo) -> int:
+    """`X if True else Y`, `True and X`, `not False`, `if True: …` - what is left where a helper was expanded with a literal argument
+    (`self._walk(forward=True)`) - are written as the branch that is taken, so that the expanded code reads like the specialised one."""
+    n = [0]
+
+    class Fold(ast.NodeTransformer):
+        def visit_IfExp(self, node):
+            node = self.generic_visit(node)
+            if isinstance(node.test, ast.Constant) and isinstance(node.test.value, bool):
+                n[0] += 1
+                return node.body if node.test.value else node.orelse
+            return node
+
+        def visit_BoolOp(self, node):
+            node = self.generic_visit(node)
+            if not any(isinstance(v, ast.Constant) and isinstance(v.value, bool) for v in node.values):
+                return node
+            vals = []
+            for v in node.values:
+                if isinstance(v, ast.Constant) and isinstance(v.value, bool):
+                    if isinstance(node.op, ast.And) and not v.value:
+                        vals.append(v)
+                        break
+                    if isinstance(node.op, ast.Or) and v.value:
+                        vals.append(v)
+                        break
+                    continue
+                vals.append(v)
+            n[0] += 1
+            if not vals:
+                return ast.copy_location(ast.Constant(value=isinstance(node.op, ast.And)), node)
+            return vals[0] if len(vals) == 1 else ast.copy_location(ast.BoolOp(op=node.op, values=vals), node)
+
+        def visit_UnaryOp(self, node):
+            node = self.generic_visit(node)
+            if isinstance(node.op, ast.Not) and isinstance(node.operand, ast.Constant) and isinstance(node.operand.value, bool):
+                n[0] += 1
+                return ast.copy_location(ast.Constant(value=not node.operand.value), node)
+            return node
+
+        def visit_If(self, node):
+            node = self.generic_visit(node)
+            if isinstance(node.test, ast.Constant) and isinstance(node.test.value, bool):
+                n[0] += 1
+                keep = node.body if node.test.value else node.orelse
+                return keep or [ast.copy_location(ast.Pass(), node)]
+            return node
+
+    for m in repo.pkg_modules():
+        for top in m.tree.body:
+            if isinstance(top, (ast.FunctionDef, ast.ClassDef)):
+                Fold().visit(top)
+        ast.fix_missing_locations(m.tree)
+    return n[0]
+
+
 def expand_helpers(repo) -> dict:
     """Rewrite the trees of `repo` (an index built WITHOUT this pass) in place; returns statistics."""
     from .types import Typer
@@ -1225,6 +1281,9 @@ def expand_helpers(repo) -> dict:
     inl = Inliner(repo, Typer(repo, None))
     stats = inl.run()
     inl.log += prop_log
+    n_fold = fold_constant_tests(repo) if stats.get("sites") else 0
+    if n_fold:
+        inl.log.append(f"{n_fold} constant test(s) left by literal arguments folded")
     n_split = split_name_tuple_assignments(repo)
     if n_split:
         inl.log.append(f"{n_split} tuple assignment(s) of plain names written as single assignments")
